@@ -130,6 +130,12 @@ func (p c18) Gen(c *run.Ctx, idx int) (json.RawMessage, error) {
 		// a canonical history that reaches Close, Listen's defer and the handler clean-up
 		cs.History = []c18Action{{Kind: "init"}, {Kind: "start", Sub: 0}, {Kind: "wait", SleepUs: 800 + r.Intn(800)}, {Kind: "start", Sub: 1}, {Kind: "wait", SleepUs: r.Intn(600)}, {Kind: "stop", Sub: 0}, {Kind: "wait", SleepUs: r.Intn(600)}}
 		cs.History = append(cs.History, c18Action{Kind: pick(r, []string{"terminate", "tcpclose", "stop"}), Sub: 1})
+		if r.Intn(2) == 0 {
+			// the same id started again while its first run is active, then stopped: the entry looked up by `stop`
+			// (and by the final clean-up) must be the second run's
+			cs.History = []c18Action{{Kind: "init"}, {Kind: "start", Sub: 0}, {Kind: "wait", SleepUs: 800 + r.Intn(800)}, {Kind: "start", Sub: 0}, {Kind: "wait", SleepUs: 1500 + r.Intn(2500)},
+				{Kind: "stop", Sub: 0}, {Kind: "wait", SleepUs: r.Intn(600)}, {Kind: pick(r, []string{"terminate", "tcpclose", "wait"}), Sub: 1}}
+		}
 		return mustJSON(cs), nil
 	}
 	kinds := []string{"start", "start", "start", "stop", "stop", "stop", "dupstart", "stopunknown", "wait", "wait", "malformed", "nopayload", "unknown", "invalidquery", "partial", "terminate", "tcpclose"}
